@@ -321,6 +321,10 @@ func (s *mstate) lookup(n string) string {
 			break
 		}
 	}
+	return nh
+}
+
+func (s *mstate) strategy(n string) string {
 	st := "best-route"
 	for _, p := range prefixesOf(n) {
 		if v, ok := s.strat[p]; ok {
@@ -328,7 +332,7 @@ func (s *mstate) lookup(n string) string {
 			break
 		}
 	}
-	return nh + "|" + st
+	return st
 }
 
 func (s *mstate) list() string {
@@ -404,6 +408,8 @@ var model = porcupine.Model{
 		switch o.Op {
 		case "lookup":
 			return ps.st.lookup(o.Name) == output.(string), state
+		case "strat":
+			return ps.st.strategy(o.Name) == output.(string), state
 		case "list":
 			return ps.st.list() == output.(string), state
 		}
@@ -576,18 +582,28 @@ func (e Engine) runOnce(t *testing.T, ctx *kit.Ctx, sc *kit.Scenario[Config, Op]
 				case "unsetstrat":
 					fib.UnSetStrategyEnc(mkName(o.Name))
 				case "lookup":
+					// a forwarding thread makes two separately locked lookups: next hops, then strategy
+					// (two operations of the history, each with its own invocation and response)
 					nhs := fib.FindNextHopsEnc(mkName(o.Name))
-					st := fib.FindStrategyEnc(mkName(o.Name))
 					ret := s.counter
 					s.counter++
-					atReturn := renderLookup(nhs, st)
+					call2 := s.counter
+					s.counter++
+					st := fib.FindStrategyEnc(mkName(o.Name))
+					ret2 := s.counter
+					s.counter++
+					atReturn := renderLookup(nhs)
 					// the forwarding thread uses the returned slice after the lookup returned
 					table.VerifYield("lookup.use-result")
-					o2 := atReturn
-					if after := renderLookup(nhs, st); after != atReturn {
+					if after := renderLookup(nhs); after != atReturn {
 						mutated = fmt.Sprintf("lookup %s returned [%s]; after other threads ran, the same returned slice reads [%s]", o.Name, atReturn, after)
 					}
-					ops = append(ops, porcupine.Operation{ClientId: ti, Input: o, Call: int64(call), Output: o2, Return: int64(ret)})
+					ops = append(ops, porcupine.Operation{ClientId: ti, Input: o, Call: int64(call), Output: atReturn, Return: int64(ret)})
+					sn := "best-route"
+					if st != nil && len(st) >= 4 {
+						sn = st[3].String()
+					}
+					ops = append(ops, porcupine.Operation{ClientId: ti, Input: &Op{Task: o.Task, Op: "strat", Name: o.Name}, Call: int64(call2), Output: sn, Return: int64(ret2)})
 					continue
 				case "list":
 					xs := []string{}
@@ -613,6 +629,7 @@ func (e Engine) runOnce(t *testing.T, ctx *kit.Ctx, sc *kit.Scenario[Config, Op]
 	// scheduling loop: exactly one task runs at a time
 	alive := make([]bool, ntask)
 	blocked := make([]bool, ntask)
+	parked := make([]string, ntask) // where each task is parked (its last yield tag)
 	for i := range alive {
 		alive[i] = true
 	}
@@ -683,6 +700,40 @@ func (e Engine) runOnce(t *testing.T, ctx *kit.Ctx, sc *kit.Scenario[Config, Op]
 				blocked[i] = false
 			}
 			continue
+		}
+		parked[pick] = msg.tag
+		if base, ok := strings.CutSuffix(msg.tag, "+held"); ok {
+			// The task is about to take a FIB lock that someone holds right now. Every other task is parked at a
+			// known place; if none of them is inside a FIB critical section the holder is this task itself.
+			msg.tag = base
+			parked[pick] = base
+			if base == "fib.rlock" || base == "fib.lock" {
+				other, writer := false, -1
+				for i := 0; i < ntask; i++ {
+					if i == pick || !alive[i] {
+						continue
+					}
+					switch parked[i] {
+					case "fib.read", "fib.mut":
+						other = true
+					case "fib.lock", "blocked:fib.lock":
+						writer = i
+					}
+				}
+				if !other {
+					ctx.Probe("reentrant-fib-lock")
+					if base == "fib.lock" {
+						res.Violation = &kit.Violation{Class: "C16/deadlock", Key: c.Fib + "/reentrant-write-lock", Step: step,
+							Detail: fmt.Sprintf("task %d takes the FIB write lock while it already holds the FIB lock itself", pick)}
+						break
+					}
+					if writer >= 0 {
+						res.Violation = &kit.Violation{Class: "C16/deadlock", Key: c.Fib + "/reentrant-read-lock-with-writer-waiting", Step: step,
+							Detail: fmt.Sprintf("task %d re-enters the FIB read lock it already holds while task %d is at Lock(): the writer waits for the outer read lock, the inner RLock queues behind the writer, neither proceeds", pick, writer)}
+						break
+					}
+				}
+			}
 		}
 		if strings.HasPrefix(msg.tag, "unlocked-mutation:") || strings.HasPrefix(msg.tag, "unlocked-read:") {
 			res.Violation = &kit.Violation{Class: "C16/lock-discipline", Key: c.Fib + "/" + msg.tag, Step: step,
@@ -766,6 +817,17 @@ func (e Engine) runOnce(t *testing.T, ctx *kit.Ctx, sc *kit.Scenario[Config, Op]
 	}
 	sort.Strings(xs)
 	ops = append(ops, porcupine.Operation{ClientId: ntask, Input: fin, Call: int64(s.counter + 1), Output: strings.Join(xs, " "), Return: int64(s.counter + 2)})
+	// final lookups over the name universe (next hops and strategy), after everything completed
+	fc := s.counter + 3
+	for _, n := range lookNames {
+		ops = append(ops, porcupine.Operation{ClientId: ntask, Input: &Op{Task: ntask, Op: "lookup", Name: n}, Call: int64(fc), Output: renderLookup(fib.FindNextHopsEnc(mkName(n))), Return: int64(fc + 1)})
+		sn := "best-route"
+		if st := fib.FindStrategyEnc(mkName(n)); st != nil && len(st) >= 4 {
+			sn = st[3].String()
+		}
+		ops = append(ops, porcupine.Operation{ClientId: ntask, Input: &Op{Task: ntask, Op: "strat", Name: n}, Call: int64(fc + 2), Output: sn, Return: int64(fc + 3)})
+		fc += 4
+	}
 	r := porcupine.CheckOperationsTimeout(model, ops, 20*time.Second)
 	switch r {
 	case porcupine.Illegal:
@@ -783,7 +845,7 @@ func (e Engine) runOnce(t *testing.T, ctx *kit.Ctx, sc *kit.Scenario[Config, Op]
 	return res
 }
 
-func renderLookup(nhs []*table.FibNextHopEntry, st enc.Name) string {
+func renderLookup(nhs []*table.FibNextHopEntry) string {
 	nh := map[uint64]uint64{}
 	dup := false
 	for _, h := range nhs {
@@ -792,14 +854,10 @@ func renderLookup(nhs []*table.FibNextHopEntry, st enc.Name) string {
 		}
 		nh[h.Nexthop] = h.Cost
 	}
-	sn := "best-route"
-	if st != nil && len(st) >= 4 {
-		sn = st[3].String()
-	}
 	if dup {
-		return "DUPLICATE-NEXTHOP " + nhStr(nh) + "|" + sn
+		return "DUPLICATE-NEXTHOP " + nhStr(nh)
 	}
-	return nhStr(nh) + "|" + sn
+	return nhStr(nh)
 }
 
 // linKey names what kind of read made the history illegal, as far as it can be
@@ -818,7 +876,7 @@ func linKey(ops []porcupine.Operation) string {
 	}
 	isRead := func(o porcupine.Operation) bool {
 		k := o.Input.(*Op).Op
-		return k == "lookup" || k == "list"
+		return k == "lookup" || k == "list" || k == "strat"
 	}
 	var rest []porcupine.Operation
 	for _, o := range ops {
